@@ -132,6 +132,9 @@ def run_harness(h, tier_timeout, mem_gb):
     name = h["name"]
     log = os.path.join(LOGS, "%s.%s.log" % (crate, name.replace("::", ".")))
     cmd = ["cargo", "kani", "--target-dir", target_dir(crate), "--harness", name, "--exact"] + registry.CRATES[crate].get("kani_args", []) + h.get("kani_args", [])
+    cb = registry.CRATES[crate].get("cbmc_args", []) + h.get("cbmc_args", [])
+    if cb:
+        cmd += ["--cbmc-args"] + cb
     t0 = time.time()
     timeout = h.get("timeout", tier_timeout)
     status = None
@@ -180,7 +183,7 @@ def match_known(prop, h, chk, known):
     return None
 
 
-RE_PB = re.compile(r"/// Test generated for harness `([^`]*)`\s*\n///\s*\n/// Check for `([^`]*)`: \"(.*)\"\s*\n\s*\n(#\[test\]\nfn (\w+)\(\) \{.*?\n\})", re.S)
+RE_PB = re.compile(r"/// Test generated for harness `([^`]*)`\s*\n///\s*\n/// Check for `([^`]*)`: \"([^\n]*)\"\s*\n(?:///[^\n]*\n)*\s*(#\[test\]\nfn (\w+)\(\) \{.*?\n\})", re.S)
 
 
 def concrete_playback(h, mem_gb, timeout):
@@ -188,6 +191,9 @@ def concrete_playback(h, mem_gb, timeout):
     crate = h["crate"]
     cmd = ["cargo", "kani", "--target-dir", target_dir(crate), "--harness", h["name"], "--exact", "--output-format", "terse",
            "-Z", "concrete-playback", "--concrete-playback=print"] + registry.CRATES[crate].get("kani_args", []) + h.get("kani_args", [])
+    cb = registry.CRATES[crate].get("cbmc_args", []) + h.get("cbmc_args", [])
+    if cb:
+        cmd += ["--cbmc-args"] + cb
     try:
         p = subprocess.run(cmd, cwd=crate_dir(crate), env=crate_env(crate), capture_output=True, text=True,
                            timeout=timeout, preexec_fn=_limit(mem_gb))
@@ -200,9 +206,12 @@ def concrete_playback(h, mem_gb, timeout):
     return tests
 
 
-def native_playback(h, test, release=False):
+def native_playback(h, test, expect_msg=None):
     """Run the harness body natively on the solver's values (cargo kani playback = cargo test with
-    kani::any() reading the recorded bytes). Returns (reproduced, output_tail)."""
+    kani::any() reading the recorded bytes). Returns (reproduced, output_tail).
+    reproduced is True only if the native run panics with the message of the failed check (or, for
+    checks without a message of their own - overflow, index, unwrap - with some panic that is not
+    the playback running out of recorded values, which means the native path diverged)."""
     crate = h["crate"]
     mod = h["name"].split("::")[-2] if "::" in h["name"] else "lib"
     os.makedirs(REPLAYS, exist_ok=True)
@@ -210,7 +219,7 @@ def native_playback(h, test, release=False):
     open(pbfile, "w").write(test["code"] + "\n")
     env = crate_env(crate)
     env["VERIF_PLAYBACK_FILE"] = pbfile
-    env["RUSTFLAGS"] = (env.get("RUSTFLAGS", "") + " --cfg verif_pb_" + mod).strip()
+    env["RUSTFLAGS"] = (env.get("RUSTFLAGS", "") + " --cfg verif_playback --cfg verif_pb_" + mod).strip()
     env["CARGO_TARGET_DIR"] = target_dir(crate, "-pb")
     env["RUST_BACKTRACE"] = "0"
     cmd = ["cargo", "kani", "playback", "-Z", "concrete-playback"] + registry.CRATES[crate].get("kani_args", []) + ["--", test["test"]]
@@ -219,10 +228,25 @@ def native_playback(h, test, release=False):
     except subprocess.TimeoutExpired:
         return None, "playback timeout"
     out = p.stdout + p.stderr
-    ran = re.search(r"test result: (\w+)\. (\d+) passed; (\d+) failed", out)
-    if not ran or (int(ran.group(2)) + int(ran.group(3))) == 0:
-        return None, out[-1500:]
-    return int(ran.group(3)) > 0, out[-1500:]
+    tail = "\n".join(l for l in out.splitlines() if not l.startswith("warning") and not l.lstrip().startswith(("|", "=", "-->")) and l.strip())[-2500:]
+    ran = re.search(r"running (\d+) test", out)
+    res = re.search(r"test result: (\w+)\. (\d+) passed; (\d+) failed", out)
+    if not ran or not res or (int(res.group(2)) + int(res.group(3))) == 0:
+        return None, tail
+    if int(res.group(3)) == 0:
+        return False, tail
+    if "Not enough det vals" in out:
+        return False, tail + "\n[native path diverged from the solver's path: recorded values exhausted]"
+    if expect_msg:
+        m = expect_msg.strip().strip('"')
+        if m and m in out:
+            return True, tail
+        # message-less checks (arithmetic overflow, index out of bounds ...)
+        generic = ("overflow", "out of bounds", "unwrap", "divide", "slice", "index")
+        if any(g in expect_msg for g in generic) and "panicked" in out:
+            return True, tail
+        return False, tail + "\n[native run panicked, but not with the failed check's message]"
+    return True, tail
 
 
 def handle_failure(prop, h, r, known, mem_gb):
@@ -239,15 +263,15 @@ def handle_failure(prop, h, r, known, mem_gb):
         return results
     tests = concrete_playback(h, mem_gb, h.get("timeout", 900) * 2)
     os.makedirs(REPLAYS, exist_ok=True)
-    for chk in unknown:
+    for chk in unknown[:3]:
         cand = [t for t in tests if t["kind"] != "cover" and (t["msg"] == chk["msg"] or chk["msg"] in t["msg"] or t["msg"] in chk["msg"])]
         if not cand:
             cand = [t for t in tests if t["kind"] != "cover"]
         replay_path = os.path.join(REPLAYS, "%s-%s-%s.json" % (prop, h["name"].split("::")[-1], hashlib.sha1(chk["msg"].encode()).hexdigest()[:8]))
         reproduced, tail = (None, "no concrete playback produced")
         used = None
-        for t in cand[:3]:
-            reproduced, tail = native_playback(h, t)
+        for t in cand[:2]:
+            reproduced, tail = native_playback(h, t, chk["msg"])
             used = t
             if reproduced:
                 break
@@ -274,7 +298,7 @@ def replay_file(prop, path):
     os.makedirs(TARGETS, exist_ok=True)
     sync_lock(h["crate"])
     t = {"code": rec["playback_test"], "test": rec["playback_test_name"]}
-    reproduced, tail = native_playback(h, t)
+    reproduced, tail = native_playback(h, t, rec.get("failed_check", {}).get("msg"))
     print(tail)
     if reproduced:
         print("VIOLATION property=%s replay=%s" % (rec["property"], path))
